@@ -29,6 +29,9 @@ func (f InverterModeFactoryType) New(v uint8) (InverterMode, error) {
 }
 
 func (f InverterModeFactoryType) NewEnum(v int) (Enum, error) {
+	if v < 0 || v > 0xFF {
+		return nil, ErrInvalidEnumIdx
+	}
 	return f.New(uint8(v))
 }
 
